@@ -1,7 +1,7 @@
 """C15 leg C — every operation family re-run with the coordinates stored in a narrow index type.
 
-Run as a worker (`python c15_legc.py <dtype> <tier> <seed>`): prints one JSON line per explored case
-{"family","case","status","detail"}; status is
+Run as a worker (`python c15_legc.py <dtype> <tier> <seed> [limits] [subset] [families] [outfile]`): writes a
+{"begin": case} line before and one {"family","case","status","detail"} line after every explored case; status is
   equal     both runs agree (same representation, or the same error class)
   rejected  the narrow run raised a ValueError whose message names the index dtype (allowed)
   differ    anything else: a failing input of the property
@@ -190,6 +190,7 @@ class Operands:
         self.n = max(shape)
         self.mk = lambda c, d, s: sparse.COO(np.asarray(c).astype(self.t), np.asarray(d), shape=tuple(s), has_duplicates=False, sorted=True)
         self.x = self.mk(coords, data, shape)
+        self.mk64 = lambda: sparse.COO(np.asarray(coords, dtype=np.int64), np.asarray(data), shape=tuple(shape), has_duplicates=False, sorted=True)
         # second operand: same shape, pattern mirrored along the last axis (overlaps partly)
         c2 = coords.copy()
         if c2.size:
@@ -374,9 +375,9 @@ def op_table(o: Operands, subset=False):
     add("convert", "gcxs.tocoo()", lambda: x.asformat("gcxs").tocoo())
     add("convert", "gcxs.todense()", lambda: x.asformat("gcxs").todense(), o.small)
     add("convert", "todense()", lambda: x.todense(), o.small)
-    add("convert", "COO.from_numpy(idx_dtype=t)", lambda: sparse.COO.from_numpy(x.todense(), idx_dtype=t.type), o.small)
-    add("convert", "GCXS.from_numpy(idx_dtype=t)", lambda: sparse.GCXS.from_numpy(x.todense(), idx_dtype=t.type), o.small and not subset)
-    add("convert", "COO(coords,idx_dtype=t)", lambda: sparse.COO(o.coords, o.data, shape=o.shape, idx_dtype=t.type))
+    add("request", "COO.from_numpy(idx_dtype=t)", lambda: sparse.COO.from_numpy(o.mk64().todense(), idx_dtype=t.type), o.small)
+    add("request", "GCXS.from_numpy(idx_dtype=t)", lambda: sparse.GCXS.from_numpy(o.mk64().todense(), idx_dtype=t.type), o.small and not subset)
+    add("request", "COO(coords,idx_dtype=t)", lambda: sparse.COO(o.coords, o.data, shape=o.shape, idx_dtype=t.type))
     add("convert", "DOK round trip", lambda: sparse.DOK.from_coo(x).to_coo(), o.nnz <= 2000 and not subset)
     add("convert", "to_scipy csr", lambda: x.tocsr(), nd == 2)
     add("convert", "to_scipy coo", lambda: x.to_scipy_sparse(), nd == 2 and not subset)
@@ -384,7 +385,9 @@ def op_table(o: Operands, subset=False):
     add("convert", "linear_loc", lambda: x.linear_loc())
     add("convert", "pickle", lambda: pickle.loads(pickle.dumps(x)), not subset)
     add("convert", "npz", lambda: _npz(x), not subset)
-    add("convert", "random(idx_dtype=t)", lambda: sparse.random(o.shape, nnz=min(o.nnz, 50), random_state=7, idx_dtype=t.type))
+    add("request", "asformat(gcxs,idx_dtype=t)", lambda: o.mk64().asformat("gcxs", idx_dtype=t.type), nd >= 1)
+    add("request", "GCXS.from_coo(ca=(0,),idx_dtype=t)", lambda: sparse.GCXS.from_coo(o.mk64(), compressed_axes=(0,), idx_dtype=t.type), nd >= 2)
+    add("request", "random(idx_dtype=t)", lambda: sparse.random(o.shape, nnz=min(o.nnz, 50), random_state=7, idx_dtype=t.type))
     # ---- GCXS operations ------------------------------------------------------------------------
     if nd >= 2:
         for ca in [(0,), (nd - 1,)] + ([(0, 2)] if nd >= 3 else []):
@@ -488,11 +491,14 @@ def run_worker(tname, tier, seed, limits=None, subset=False, families=None, out=
         for (fam, name, f_ref), (_, _, f_got) in zip(t_ref, t_got):
             if (families and fam not in families) or (only and fam not in only):
                 continue
+            case = {"op": name, "scenario": sname, "shape": list(shape), "nnz": int(coords.shape[1]), "idx_dtype": tname, "limit": L}
+            # announce the case first: a wrapped index inside a compiled kernel can kill the interpreter
+            out.write(json.dumps({"begin": case, "family": fam}) + "\n")
+            out.flush()
             ref = outcome(f_ref)
             got = outcome(f_got)
             status, detail = judge(ref, got, tname)
-            rec = {"family": fam, "case": {"op": name, "scenario": sname, "shape": list(shape), "nnz": int(coords.shape[1]), "idx_dtype": tname, "limit": L},
-                   "status": status, "detail": detail, "ref": ref[0] if ref[0] == "ok" else f"{ref[1]}"}
+            rec = {"family": fam, "case": case, "status": status, "detail": detail, "ref": ref[0] if ref[0] == "ok" else f"{ref[1]}"}
             out.write(json.dumps(rec) + "\n")
             count += 1
 
@@ -502,8 +508,13 @@ def run_worker(tname, tier, seed, limits=None, subset=False, families=None, out=
                 one(L, sname, shape, coords, data)
         if np.iinfo(t).max == L:
             # every coordinate is representable, the extent itself is not: outside the property's quantifier except for
-            # what a user-supplied coordinate array can be handed to — compiled code (numba boxing)
-            one(L, f"coordsfit{L + 1}", (L + 1,), np.array([[0, L // 2, L]], dtype=np.int64), np.array([1, 2, 3]), only={"numba"})
+            # what a user-supplied coordinate array can be handed to — compiled code (numba boxing) — and for the calls that
+            # *request* this dtype (idx_dtype=...), which must be refused with a ValueError naming it
+            one(L, f"coordsfit{L + 1}", (L + 1,), np.array([[0, L // 2, L]], dtype=np.int64), np.array([1, 2, 3]), only={"numba", "request"})
+            one(L, f"coordsfit3x{L + 1}", (3, L + 1), np.array([[0, 1, 2], [0, L // 2, L]], dtype=np.int64), np.array([1, 2, 3]), only={"request"})
+            # the requested dtype cannot even hold the coordinates (the operand `x` is not used by the request family)
+            one(L, f"above{L + 3}", (L + 3,), np.array([[0, L + 1, L + 2]], dtype=np.int64), np.array([1, 2, 3]), only={"request"})
+            one(L, f"above3x{2 * L}", (3, 2 * L), np.array([[0, 1, 2], [L + 1, 2 * L - 2, 2 * L - 1]], dtype=np.int64), np.array([1, 2, 3]), only={"request"})
         out.flush()
     return count
 
